@@ -43,7 +43,8 @@ class C06(Check):
         yield from families.seats_ties(2, spaces.U(2, 0, 6), cfgs=G)
         yield from families.seats_ties(3, spaces.U(3, 0, 4), cfgs=G)
         yield from families.seats_ties(3, spaces.U(3, 0, 4), ties='id', cfgs=menu)
-        yield from families.seats_ties(4, spaces.W(4, 2, 3, (1, 2)), seats=(2, 3), ties='id', cfgs=G + menu[::5])
+        d0 = [{'rule': 'wigm', 'arithmetic': 'fixed', 'precision': 4, 'display': 0}, {'rule': 'wigm', 'arithmetic': 'guarded', 'precision': 6, 'guard': 3, 'display': 0}]
+        yield from families.seats_ties(4, spaces.W(4, 2, 3, (1, 2)), seats=(2, 3), ties='id', cfgs=G + menu[::5] + d0)     # d0: every value prints alike
         yield from families.withdrawn_family(3, spaces.U(3, 0, 4), G[:3] + G[5:], seats=(1, 2))
         yield from families.undeclared_family(3, spaces.U(3, 0, 4), [{'rule': 'mpls'}], seats=(1, 2))
         yield from families.seats_ties(3, spaces.U(3, 5, 5), ties='id' if tier == 'quick' else 'idrev', cfgs=G)
